@@ -91,7 +91,7 @@ Proof.
     assert (HKB : kids_bounded V (bounded h') lo hi (fst (splice V kids r i L s R)) (snd (splice V kids r i L s R)))
       by (apply splice_bounded; assumption).
     destruct (Z.leb_spec (klen s + ISLOT) (ifree V kids)) as [Hroom | Hfull].
-    + destruct (int_ins_room V id kids r i L s R np' Hsp Hi Hroom) as [E | E]; rewrite E; cbn [BTreeLeafIns.ires_ok]; [reflexivity|].
+    + rewrite (int_ins_room V id kids r i L s R np' Hsp Hi Hroom). cbn [BTreeLeafIns.ires_ok].
       split.
       * cbn [BTreeInv.bounded]. split; [rewrite splice_ifree; lia | exact HKB].
       * rewrite !abs_node. exact Habs.
